@@ -651,7 +651,12 @@ def iter_patched_from_hunks(orig_lines, hunks):
             if isinstance(hunk_line, InsertLine):
                 yield hunk_line.contents
             elif isinstance(hunk_line, (ContextLine, RemoveLine)):
-                orig_line = next(orig_lines)
+                try:
+                    orig_line = next(orig_lines)
+                except StopIteration:
+                    raise PatchConflict(
+                        line_no, b"", b"".join(seen_patch)
+                    ) from None
                 if orig_line != hunk_line.contents:
                     raise PatchConflict(line_no, orig_line, b"".join(seen_patch))
                 if isinstance(hunk_line, ContextLine):
